@@ -50,7 +50,7 @@ Definition score_table : list (list (option N)) := [
   [Some 10; None; None; None; None; None; None; None; None; None; None; None; None; None; None; None; None; None; None; None; None; None; None; None; None; None; None]
 ].
 Definition scalar_sets : list fset := [
-  {| f_name := "+"; f_sigs := [
+  (* + *) {| f_sigs := [
       {| s_pos := [14; 14]; s_var := None; s_ret := 14 |};
       {| s_pos := [15; 15]; s_var := None; s_ret := 15 |};
       {| s_pos := [16; 16]; s_var := None; s_ret := 16 |};
@@ -82,7 +82,7 @@ Definition scalar_sets : list fset := [
       {| s_pos := [7; 18]; s_var := None; s_ret := 18 |};
       {| s_pos := [20; 6]; s_var := None; s_ret := 20 |};
       {| s_pos := [6; 20]; s_var := None; s_ret := 20 |}] |};
-  {| f_name := "-"; f_sigs := [
+  (* - *) {| f_sigs := [
       {| s_pos := [14; 14]; s_var := None; s_ret := 14 |};
       {| s_pos := [15; 15]; s_var := None; s_ret := 15 |};
       {| s_pos := [16; 16]; s_var := None; s_ret := 16 |};
@@ -113,7 +113,7 @@ Definition scalar_sets : list fset := [
       {| s_pos := [6; 18]; s_var := None; s_ret := 18 |};
       {| s_pos := [7; 18]; s_var := None; s_ret := 18 |};
       {| s_pos := [20; 6]; s_var := None; s_ret := 20 |}] |};
-  {| f_name := "/"; f_sigs := [
+  (* / *) {| f_sigs := [
       {| s_pos := [14; 14]; s_var := None; s_ret := 14 |};
       {| s_pos := [15; 15]; s_var := None; s_ret := 15 |};
       {| s_pos := [16; 16]; s_var := None; s_ret := 16 |};
@@ -129,7 +129,7 @@ Definition scalar_sets : list fset := [
       {| s_pos := [13; 13]; s_var := None; s_ret := 13 |};
       {| s_pos := [17; 17]; s_var := None; s_ret := 16 |};
       {| s_pos := [18; 18]; s_var := None; s_ret := 16 |}] |};
-  {| f_name := "*"; f_sigs := [
+  (* <star> *) {| f_sigs := [
       {| s_pos := [14; 14]; s_var := None; s_ret := 14 |};
       {| s_pos := [15; 15]; s_var := None; s_ret := 15 |};
       {| s_pos := [16; 16]; s_var := None; s_ret := 16 |};
@@ -163,7 +163,7 @@ Definition scalar_sets : list fset := [
       {| s_pos := [22; 7]; s_var := None; s_ret := 22 |};
       {| s_pos := [6; 22]; s_var := None; s_ret := 22 |};
       {| s_pos := [7; 22]; s_var := None; s_ret := 22 |}] |};
-  {| f_name := "%"; f_sigs := [
+  (* % *) {| f_sigs := [
       {| s_pos := [14; 14]; s_var := None; s_ret := 14 |};
       {| s_pos := [15; 15]; s_var := None; s_ret := 15 |};
       {| s_pos := [16; 16]; s_var := None; s_ret := 16 |};
@@ -177,13 +177,13 @@ Definition scalar_sets : list fset := [
       {| s_pos := [11; 11]; s_var := None; s_ret := 11 |};
       {| s_pos := [12; 12]; s_var := None; s_ret := 12 |};
       {| s_pos := [13; 13]; s_var := None; s_ret := 13 |}] |};
-  {| f_name := "lcm"; f_sigs := [
+  (* lcm *) {| f_sigs := [
       {| s_pos := [4; 4]; s_var := None; s_ret := 4 |};
       {| s_pos := [5; 5]; s_var := None; s_ret := 5 |};
       {| s_pos := [6; 6]; s_var := None; s_ret := 6 |};
       {| s_pos := [7; 7]; s_var := None; s_ret := 7 |};
       {| s_pos := [8; 8]; s_var := None; s_ret := 8 |}] |};
-  {| f_name := "xor"; f_sigs := [
+  (* xor *) {| f_sigs := [
       {| s_pos := [4; 4]; s_var := None; s_ret := 4 |};
       {| s_pos := [5; 5]; s_var := None; s_ret := 5 |};
       {| s_pos := [6; 6]; s_var := None; s_ret := 6 |};
@@ -194,7 +194,7 @@ Definition scalar_sets : list fset := [
       {| s_pos := [11; 11]; s_var := None; s_ret := 11 |};
       {| s_pos := [12; 12]; s_var := None; s_ret := 12 |};
       {| s_pos := [13; 13]; s_var := None; s_ret := 13 |}] |};
-  {| f_name := "shl"; f_sigs := [
+  (* shl *) {| f_sigs := [
       {| s_pos := [4; 6]; s_var := None; s_ret := 4 |};
       {| s_pos := [5; 6]; s_var := None; s_ret := 5 |};
       {| s_pos := [6; 6]; s_var := None; s_ret := 6 |};
@@ -205,7 +205,7 @@ Definition scalar_sets : list fset := [
       {| s_pos := [11; 6]; s_var := None; s_ret := 11 |};
       {| s_pos := [12; 6]; s_var := None; s_ret := 12 |};
       {| s_pos := [13; 6]; s_var := None; s_ret := 13 |}] |};
-  {| f_name := "shr"; f_sigs := [
+  (* shr *) {| f_sigs := [
       {| s_pos := [4; 6]; s_var := None; s_ret := 4 |};
       {| s_pos := [5; 6]; s_var := None; s_ret := 5 |};
       {| s_pos := [6; 6]; s_var := None; s_ret := 6 |};
@@ -216,11 +216,11 @@ Definition scalar_sets : list fset := [
       {| s_pos := [11; 6]; s_var := None; s_ret := 11 |};
       {| s_pos := [12; 6]; s_var := None; s_ret := 12 |};
       {| s_pos := [13; 6]; s_var := None; s_ret := 13 |}] |};
-  {| f_name := "and"; f_sigs := [
+  (* and *) {| f_sigs := [
       {| s_pos := [3]; s_var := Some 3; s_ret := 3 |}] |};
-  {| f_name := "or"; f_sigs := [
+  (* or *) {| f_sigs := [
       {| s_pos := [3]; s_var := Some 3; s_ret := 3 |}] |};
-  {| f_name := "="; f_sigs := [
+  (* = *) {| f_sigs := [
       {| s_pos := [3; 3]; s_var := None; s_ret := 3 |};
       {| s_pos := [4; 4]; s_var := None; s_ret := 3 |};
       {| s_pos := [5; 5]; s_var := None; s_ret := 3 |};
@@ -243,7 +243,7 @@ Definition scalar_sets : list fset := [
       {| s_pos := [18; 18]; s_var := None; s_ret := 3 |};
       {| s_pos := [24; 24]; s_var := None; s_ret := 3 |};
       {| s_pos := [23; 23]; s_var := None; s_ret := 3 |}] |};
-  {| f_name := "!="; f_sigs := [
+  (* != *) {| f_sigs := [
       {| s_pos := [3; 3]; s_var := None; s_ret := 3 |};
       {| s_pos := [4; 4]; s_var := None; s_ret := 3 |};
       {| s_pos := [5; 5]; s_var := None; s_ret := 3 |};
@@ -266,7 +266,7 @@ Definition scalar_sets : list fset := [
       {| s_pos := [18; 18]; s_var := None; s_ret := 3 |};
       {| s_pos := [24; 24]; s_var := None; s_ret := 3 |};
       {| s_pos := [23; 23]; s_var := None; s_ret := 3 |}] |};
-  {| f_name := "<"; f_sigs := [
+  (* < *) {| f_sigs := [
       {| s_pos := [3; 3]; s_var := None; s_ret := 3 |};
       {| s_pos := [4; 4]; s_var := None; s_ret := 3 |};
       {| s_pos := [5; 5]; s_var := None; s_ret := 3 |};
@@ -289,7 +289,7 @@ Definition scalar_sets : list fset := [
       {| s_pos := [18; 18]; s_var := None; s_ret := 3 |};
       {| s_pos := [24; 24]; s_var := None; s_ret := 3 |};
       {| s_pos := [23; 23]; s_var := None; s_ret := 3 |}] |};
-  {| f_name := "<="; f_sigs := [
+  (* <= *) {| f_sigs := [
       {| s_pos := [3; 3]; s_var := None; s_ret := 3 |};
       {| s_pos := [4; 4]; s_var := None; s_ret := 3 |};
       {| s_pos := [5; 5]; s_var := None; s_ret := 3 |};
@@ -312,7 +312,7 @@ Definition scalar_sets : list fset := [
       {| s_pos := [18; 18]; s_var := None; s_ret := 3 |};
       {| s_pos := [24; 24]; s_var := None; s_ret := 3 |};
       {| s_pos := [23; 23]; s_var := None; s_ret := 3 |}] |};
-  {| f_name := ">"; f_sigs := [
+  (* > *) {| f_sigs := [
       {| s_pos := [3; 3]; s_var := None; s_ret := 3 |};
       {| s_pos := [4; 4]; s_var := None; s_ret := 3 |};
       {| s_pos := [5; 5]; s_var := None; s_ret := 3 |};
@@ -335,7 +335,7 @@ Definition scalar_sets : list fset := [
       {| s_pos := [18; 18]; s_var := None; s_ret := 3 |};
       {| s_pos := [24; 24]; s_var := None; s_ret := 3 |};
       {| s_pos := [23; 23]; s_var := None; s_ret := 3 |}] |};
-  {| f_name := ">="; f_sigs := [
+  (* >= *) {| f_sigs := [
       {| s_pos := [3; 3]; s_var := None; s_ret := 3 |};
       {| s_pos := [4; 4]; s_var := None; s_ret := 3 |};
       {| s_pos := [5; 5]; s_var := None; s_ret := 3 |};
@@ -358,7 +358,7 @@ Definition scalar_sets : list fset := [
       {| s_pos := [18; 18]; s_var := None; s_ret := 3 |};
       {| s_pos := [24; 24]; s_var := None; s_ret := 3 |};
       {| s_pos := [23; 23]; s_var := None; s_ret := 3 |}] |};
-  {| f_name := "is_distinct_from"; f_sigs := [
+  (* is_distinct_from *) {| f_sigs := [
       {| s_pos := [3; 3]; s_var := None; s_ret := 3 |};
       {| s_pos := [4; 4]; s_var := None; s_ret := 3 |};
       {| s_pos := [5; 5]; s_var := None; s_ret := 3 |};
@@ -381,7 +381,7 @@ Definition scalar_sets : list fset := [
       {| s_pos := [18; 18]; s_var := None; s_ret := 3 |};
       {| s_pos := [24; 24]; s_var := None; s_ret := 3 |};
       {| s_pos := [23; 23]; s_var := None; s_ret := 3 |}] |};
-  {| f_name := "is_not_distinct_from"; f_sigs := [
+  (* is_not_distinct_from *) {| f_sigs := [
       {| s_pos := [3; 3]; s_var := None; s_ret := 3 |};
       {| s_pos := [4; 4]; s_var := None; s_ret := 3 |};
       {| s_pos := [5; 5]; s_var := None; s_ret := 3 |};
@@ -404,19 +404,19 @@ Definition scalar_sets : list fset := [
       {| s_pos := [18; 18]; s_var := None; s_ret := 3 |};
       {| s_pos := [24; 24]; s_var := None; s_ret := 3 |};
       {| s_pos := [23; 23]; s_var := None; s_ret := 3 |}] |};
-  {| f_name := "ceil"; f_sigs := [
+  (* ceil *) {| f_sigs := [
       {| s_pos := [14]; s_var := None; s_ret := 14 |};
       {| s_pos := [15]; s_var := None; s_ret := 15 |};
       {| s_pos := [16]; s_var := None; s_ret := 16 |}] |};
-  {| f_name := "floor"; f_sigs := [
+  (* floor *) {| f_sigs := [
       {| s_pos := [14]; s_var := None; s_ret := 14 |};
       {| s_pos := [15]; s_var := None; s_ret := 15 |};
       {| s_pos := [16]; s_var := None; s_ret := 16 |}] |};
-  {| f_name := "trunc"; f_sigs := [
+  (* trunc *) {| f_sigs := [
       {| s_pos := [14]; s_var := None; s_ret := 14 |};
       {| s_pos := [15]; s_var := None; s_ret := 15 |};
       {| s_pos := [16]; s_var := None; s_ret := 16 |}] |};
-  {| f_name := "round"; f_sigs := [
+  (* round *) {| f_sigs := [
       {| s_pos := [14]; s_var := None; s_ret := 14 |};
       {| s_pos := [15]; s_var := None; s_ret := 15 |};
       {| s_pos := [16]; s_var := None; s_ret := 16 |};
@@ -424,185 +424,185 @@ Definition scalar_sets : list fset := [
       {| s_pos := [18]; s_var := None; s_ret := 18 |};
       {| s_pos := [17; 7]; s_var := None; s_ret := 17 |};
       {| s_pos := [18; 7]; s_var := None; s_ret := 18 |}] |};
-  {| f_name := "sign"; f_sigs := [
+  (* sign *) {| f_sigs := [
       {| s_pos := [14]; s_var := None; s_ret := 14 |};
       {| s_pos := [15]; s_var := None; s_ret := 15 |};
       {| s_pos := [16]; s_var := None; s_ret := 16 |}] |};
-  {| f_name := "abs"; f_sigs := [
+  (* abs *) {| f_sigs := [
       {| s_pos := [14]; s_var := None; s_ret := 14 |};
       {| s_pos := [15]; s_var := None; s_ret := 15 |};
       {| s_pos := [16]; s_var := None; s_ret := 16 |}] |};
-  {| f_name := "acos"; f_sigs := [
+  (* acos *) {| f_sigs := [
       {| s_pos := [14]; s_var := None; s_ret := 14 |};
       {| s_pos := [15]; s_var := None; s_ret := 15 |};
       {| s_pos := [16]; s_var := None; s_ret := 16 |}] |};
-  {| f_name := "acosh"; f_sigs := [
+  (* acosh *) {| f_sigs := [
       {| s_pos := [16]; s_var := None; s_ret := 16 |}] |};
-  {| f_name := "asin"; f_sigs := [
+  (* asin *) {| f_sigs := [
       {| s_pos := [14]; s_var := None; s_ret := 14 |};
       {| s_pos := [15]; s_var := None; s_ret := 15 |};
       {| s_pos := [16]; s_var := None; s_ret := 16 |}] |};
-  {| f_name := "asinh"; f_sigs := [
+  (* asinh *) {| f_sigs := [
       {| s_pos := [16]; s_var := None; s_ret := 16 |}] |};
-  {| f_name := "atan"; f_sigs := [
+  (* atan *) {| f_sigs := [
       {| s_pos := [14]; s_var := None; s_ret := 14 |};
       {| s_pos := [15]; s_var := None; s_ret := 15 |};
       {| s_pos := [16]; s_var := None; s_ret := 16 |}] |};
-  {| f_name := "atan2"; f_sigs := [
+  (* atan2 *) {| f_sigs := [
       {| s_pos := [16; 16]; s_var := None; s_ret := 16 |}] |};
-  {| f_name := "atanh"; f_sigs := [
+  (* atanh *) {| f_sigs := [
       {| s_pos := [16]; s_var := None; s_ret := 16 |}] |};
-  {| f_name := "cbrt"; f_sigs := [
+  (* cbrt *) {| f_sigs := [
       {| s_pos := [14]; s_var := None; s_ret := 14 |};
       {| s_pos := [15]; s_var := None; s_ret := 15 |};
       {| s_pos := [16]; s_var := None; s_ret := 16 |}] |};
-  {| f_name := "cos"; f_sigs := [
+  (* cos *) {| f_sigs := [
       {| s_pos := [14]; s_var := None; s_ret := 14 |};
       {| s_pos := [15]; s_var := None; s_ret := 15 |};
       {| s_pos := [16]; s_var := None; s_ret := 16 |}] |};
-  {| f_name := "cosh"; f_sigs := [
+  (* cosh *) {| f_sigs := [
       {| s_pos := [16]; s_var := None; s_ret := 16 |}] |};
-  {| f_name := "cot"; f_sigs := [
+  (* cot *) {| f_sigs := [
       {| s_pos := [16]; s_var := None; s_ret := 16 |}] |};
-  {| f_name := "exp"; f_sigs := [
+  (* exp *) {| f_sigs := [
       {| s_pos := [14]; s_var := None; s_ret := 14 |};
       {| s_pos := [15]; s_var := None; s_ret := 15 |};
       {| s_pos := [16]; s_var := None; s_ret := 16 |}] |};
-  {| f_name := "factorial"; f_sigs := [
+  (* factorial *) {| f_sigs := [
       {| s_pos := [7]; s_var := None; s_ret := 8 |}] |};
-  {| f_name := "ln"; f_sigs := [
+  (* ln *) {| f_sigs := [
       {| s_pos := [14]; s_var := None; s_ret := 14 |};
       {| s_pos := [15]; s_var := None; s_ret := 15 |};
       {| s_pos := [16]; s_var := None; s_ret := 16 |}] |};
-  {| f_name := "log"; f_sigs := [
+  (* log *) {| f_sigs := [
       {| s_pos := [14]; s_var := None; s_ret := 14 |};
       {| s_pos := [15]; s_var := None; s_ret := 15 |};
       {| s_pos := [16]; s_var := None; s_ret := 16 |}] |};
-  {| f_name := "log2"; f_sigs := [
+  (* log2 *) {| f_sigs := [
       {| s_pos := [14]; s_var := None; s_ret := 14 |};
       {| s_pos := [15]; s_var := None; s_ret := 15 |};
       {| s_pos := [16]; s_var := None; s_ret := 16 |}] |};
-  {| f_name := "pi"; f_sigs := [
+  (* pi *) {| f_sigs := [
       {| s_pos := []; s_var := None; s_ret := 16 |}] |};
-  {| f_name := "power"; f_sigs := [
+  (* power *) {| f_sigs := [
       {| s_pos := [16; 16]; s_var := None; s_ret := 16 |}] |};
-  {| f_name := "sin"; f_sigs := [
+  (* sin *) {| f_sigs := [
       {| s_pos := [14]; s_var := None; s_ret := 14 |};
       {| s_pos := [15]; s_var := None; s_ret := 15 |};
       {| s_pos := [16]; s_var := None; s_ret := 16 |}] |};
-  {| f_name := "sinh"; f_sigs := [
+  (* sinh *) {| f_sigs := [
       {| s_pos := [16]; s_var := None; s_ret := 16 |}] |};
-  {| f_name := "sqrt"; f_sigs := [
+  (* sqrt *) {| f_sigs := [
       {| s_pos := [14]; s_var := None; s_ret := 14 |};
       {| s_pos := [15]; s_var := None; s_ret := 15 |};
       {| s_pos := [16]; s_var := None; s_ret := 16 |}] |};
-  {| f_name := "tan"; f_sigs := [
+  (* tan *) {| f_sigs := [
       {| s_pos := [14]; s_var := None; s_ret := 14 |};
       {| s_pos := [15]; s_var := None; s_ret := 15 |};
       {| s_pos := [16]; s_var := None; s_ret := 16 |}] |};
-  {| f_name := "tanh"; f_sigs := [
+  (* tanh *) {| f_sigs := [
       {| s_pos := [16]; s_var := None; s_ret := 16 |}] |};
-  {| f_name := "degrees"; f_sigs := [
+  (* degrees *) {| f_sigs := [
       {| s_pos := [14]; s_var := None; s_ret := 14 |};
       {| s_pos := [15]; s_var := None; s_ret := 15 |};
       {| s_pos := [16]; s_var := None; s_ret := 16 |}] |};
-  {| f_name := "radians"; f_sigs := [
+  (* radians *) {| f_sigs := [
       {| s_pos := [14]; s_var := None; s_ret := 14 |};
       {| s_pos := [15]; s_var := None; s_ret := 15 |};
       {| s_pos := [16]; s_var := None; s_ret := 16 |}] |};
-  {| f_name := "isnan"; f_sigs := [
+  (* isnan *) {| f_sigs := [
       {| s_pos := [14]; s_var := None; s_ret := 3 |};
       {| s_pos := [15]; s_var := None; s_ret := 3 |};
       {| s_pos := [16]; s_var := None; s_ret := 3 |}] |};
-  {| f_name := "isfinite"; f_sigs := [
+  (* isfinite *) {| f_sigs := [
       {| s_pos := [14]; s_var := None; s_ret := 3 |};
       {| s_pos := [15]; s_var := None; s_ret := 3 |};
       {| s_pos := [16]; s_var := None; s_ret := 3 |}] |};
-  {| f_name := "isinf"; f_sigs := [
+  (* isinf *) {| f_sigs := [
       {| s_pos := [14]; s_var := None; s_ret := 3 |};
       {| s_pos := [15]; s_var := None; s_ret := 3 |};
       {| s_pos := [16]; s_var := None; s_ret := 3 |}] |};
-  {| f_name := "gcd"; f_sigs := [
+  (* gcd *) {| f_sigs := [
       {| s_pos := [4; 4]; s_var := None; s_ret := 4 |};
       {| s_pos := [5; 5]; s_var := None; s_ret := 5 |};
       {| s_pos := [6; 6]; s_var := None; s_ret := 6 |};
       {| s_pos := [7; 7]; s_var := None; s_ret := 7 |};
       {| s_pos := [8; 8]; s_var := None; s_ret := 8 |}] |};
-  {| f_name := "lower"; f_sigs := [
+  (* lower *) {| f_sigs := [
       {| s_pos := [23]; s_var := None; s_ret := 23 |}] |};
-  {| f_name := "upper"; f_sigs := [
+  (* upper *) {| f_sigs := [
       {| s_pos := [23]; s_var := None; s_ret := 23 |}] |};
-  {| f_name := "initcap"; f_sigs := [
+  (* initcap *) {| f_sigs := [
       {| s_pos := [23]; s_var := None; s_ret := 23 |}] |};
-  {| f_name := "repeat"; f_sigs := [
+  (* repeat *) {| f_sigs := [
       {| s_pos := [23; 7]; s_var := None; s_ret := 23 |}] |};
-  {| f_name := "substring"; f_sigs := [
+  (* substring *) {| f_sigs := [
       {| s_pos := [23; 7]; s_var := None; s_ret := 23 |};
       {| s_pos := [23; 7; 7]; s_var := None; s_ret := 23 |}] |};
-  {| f_name := "starts_with"; f_sigs := [
+  (* starts_with *) {| f_sigs := [
       {| s_pos := [23; 23]; s_var := None; s_ret := 3 |}] |};
-  {| f_name := "ends_with"; f_sigs := [
+  (* ends_with *) {| f_sigs := [
       {| s_pos := [23; 23]; s_var := None; s_ret := 3 |}] |};
-  {| f_name := "contains"; f_sigs := [
+  (* contains *) {| f_sigs := [
       {| s_pos := [23; 23]; s_var := None; s_ret := 3 |}] |};
-  {| f_name := "length"; f_sigs := [
+  (* length *) {| f_sigs := [
       {| s_pos := [23]; s_var := None; s_ret := 7 |}] |};
-  {| f_name := "byte_length"; f_sigs := [
+  (* byte_length *) {| f_sigs := [
       {| s_pos := [23]; s_var := None; s_ret := 7 |};
       {| s_pos := [24]; s_var := None; s_ret := 7 |}] |};
-  {| f_name := "bit_length"; f_sigs := [
+  (* bit_length *) {| f_sigs := [
       {| s_pos := [23]; s_var := None; s_ret := 7 |};
       {| s_pos := [24]; s_var := None; s_ret := 7 |}] |};
-  {| f_name := "concat"; f_sigs := [
+  (* concat *) {| f_sigs := [
       {| s_pos := [23]; s_var := Some 23; s_ret := 23 |}] |};
-  {| f_name := "regexp_like"; f_sigs := [
+  (* regexp_like *) {| f_sigs := [
       {| s_pos := [23; 23]; s_var := None; s_ret := 3 |}] |};
-  {| f_name := "regexp_replace"; f_sigs := [
+  (* regexp_replace *) {| f_sigs := [
       {| s_pos := [23; 23; 23]; s_var := None; s_ret := 23 |}] |};
-  {| f_name := "regexp_count"; f_sigs := [
+  (* regexp_count *) {| f_sigs := [
       {| s_pos := [23; 23]; s_var := None; s_ret := 7 |}] |};
-  {| f_name := "regexp_instr"; f_sigs := [
+  (* regexp_instr *) {| f_sigs := [
       {| s_pos := [23; 23]; s_var := None; s_ret := 7 |}] |};
-  {| f_name := "ascii"; f_sigs := [
+  (* ascii *) {| f_sigs := [
       {| s_pos := [23]; s_var := None; s_ret := 6 |}] |};
-  {| f_name := "lpad"; f_sigs := [
+  (* lpad *) {| f_sigs := [
       {| s_pos := [23; 7]; s_var := None; s_ret := 23 |};
       {| s_pos := [23; 7; 23]; s_var := None; s_ret := 23 |}] |};
-  {| f_name := "rpad"; f_sigs := [
+  (* rpad *) {| f_sigs := [
       {| s_pos := [23; 7]; s_var := None; s_ret := 23 |};
       {| s_pos := [23; 7; 23]; s_var := None; s_ret := 23 |}] |};
-  {| f_name := "ltrim"; f_sigs := [
+  (* ltrim *) {| f_sigs := [
       {| s_pos := [23; 23]; s_var := None; s_ret := 23 |};
       {| s_pos := [23]; s_var := None; s_ret := 23 |}] |};
-  {| f_name := "rtrim"; f_sigs := [
+  (* rtrim *) {| f_sigs := [
       {| s_pos := [23; 23]; s_var := None; s_ret := 23 |};
       {| s_pos := [23]; s_var := None; s_ret := 23 |}] |};
-  {| f_name := "btrim"; f_sigs := [
+  (* btrim *) {| f_sigs := [
       {| s_pos := [23; 23]; s_var := None; s_ret := 23 |};
       {| s_pos := [23]; s_var := None; s_ret := 23 |}] |};
-  {| f_name := "like"; f_sigs := [
+  (* like *) {| f_sigs := [
       {| s_pos := [23; 23]; s_var := None; s_ret := 3 |}] |};
-  {| f_name := "left"; f_sigs := [
+  (* left *) {| f_sigs := [
       {| s_pos := [23; 7]; s_var := None; s_ret := 23 |}] |};
-  {| f_name := "right"; f_sigs := [
+  (* right *) {| f_sigs := [
       {| s_pos := [23; 7]; s_var := None; s_ret := 23 |}] |};
-  {| f_name := "split_part"; f_sigs := [
+  (* split_part *) {| f_sigs := [
       {| s_pos := [23; 23; 7]; s_var := None; s_ret := 23 |}] |};
-  {| f_name := "strpos"; f_sigs := [
+  (* strpos *) {| f_sigs := [
       {| s_pos := [23; 23]; s_var := None; s_ret := 7 |}] |};
-  {| f_name := "reverse"; f_sigs := [
+  (* reverse *) {| f_sigs := [
       {| s_pos := [23]; s_var := None; s_ret := 23 |}] |};
-  {| f_name := "replace"; f_sigs := [
+  (* replace *) {| f_sigs := [
       {| s_pos := [23; 23; 23]; s_var := None; s_ret := 23 |}] |};
-  {| f_name := "translate"; f_sigs := [
+  (* translate *) {| f_sigs := [
       {| s_pos := [23; 23; 23]; s_var := None; s_ret := 23 |}] |};
-  {| f_name := "md5"; f_sigs := [
+  (* md5 *) {| f_sigs := [
       {| s_pos := [23]; s_var := None; s_ret := 23 |}] |};
-  {| f_name := "struct_pack"; f_sigs := [
+  (* struct_pack *) {| f_sigs := [
       {| s_pos := []; s_var := Some 0; s_ret := 25 |}] |};
-  {| f_name := "struct_extract"; f_sigs := [
+  (* struct_extract *) {| f_sigs := [
       {| s_pos := [25]; s_var := None; s_ret := 0 |}] |};
-  {| f_name := "negate"; f_sigs := [
+  (* negate *) {| f_sigs := [
       {| s_pos := [14]; s_var := None; s_ret := 14 |};
       {| s_pos := [15]; s_var := None; s_ret := 15 |};
       {| s_pos := [16]; s_var := None; s_ret := 16 |};
@@ -611,45 +611,45 @@ Definition scalar_sets : list fset := [
       {| s_pos := [6]; s_var := None; s_ret := 6 |};
       {| s_pos := [7]; s_var := None; s_ret := 7 |};
       {| s_pos := [8]; s_var := None; s_ret := 8 |}] |};
-  {| f_name := "not"; f_sigs := [
+  (* not *) {| f_sigs := [
       {| s_pos := [3]; s_var := None; s_ret := 3 |}] |};
-  {| f_name := "random"; f_sigs := [
+  (* random *) {| f_sigs := [
       {| s_pos := []; s_var := None; s_ret := 16 |}] |};
-  {| f_name := "list_value"; f_sigs := [
+  (* list_value *) {| f_sigs := [
       {| s_pos := []; s_var := Some 0; s_ret := 26 |}] |};
-  {| f_name := "list_extract"; f_sigs := [
+  (* list_extract *) {| f_sigs := [
       {| s_pos := [26; 7]; s_var := None; s_ret := 0 |}] |};
-  {| f_name := "date_part"; f_sigs := [
+  (* date_part *) {| f_sigs := [
       {| s_pos := [23; 20]; s_var := None; s_ret := 17 |};
       {| s_pos := [23; 21]; s_var := None; s_ret := 17 |};
       {| s_pos := [23; 19]; s_var := None; s_ret := 17 |}] |};
-  {| f_name := "date_trunc"; f_sigs := [
+  (* date_trunc *) {| f_sigs := [
       {| s_pos := [23; 19]; s_var := None; s_ret := 19 |}] |};
-  {| f_name := "epoch"; f_sigs := [
+  (* epoch *) {| f_sigs := [
       {| s_pos := [7]; s_var := None; s_ret := 19 |}] |};
-  {| f_name := "epoch_ms"; f_sigs := [
+  (* epoch_ms *) {| f_sigs := [
       {| s_pos := [7]; s_var := None; s_ret := 19 |}] |};
-  {| f_name := "is_null"; f_sigs := [
+  (* is_null *) {| f_sigs := [
       {| s_pos := [0]; s_var := None; s_ret := 3 |}] |};
-  {| f_name := "is_not_null"; f_sigs := [
+  (* is_not_null *) {| f_sigs := [
       {| s_pos := [0]; s_var := None; s_ret := 3 |}] |};
-  {| f_name := "is_true"; f_sigs := [
+  (* is_true *) {| f_sigs := [
       {| s_pos := [3]; s_var := None; s_ret := 3 |}] |};
-  {| f_name := "is_not_true"; f_sigs := [
+  (* is_not_true *) {| f_sigs := [
       {| s_pos := [3]; s_var := None; s_ret := 3 |}] |};
-  {| f_name := "is_false"; f_sigs := [
+  (* is_false *) {| f_sigs := [
       {| s_pos := [3]; s_var := None; s_ret := 3 |}] |};
-  {| f_name := "is_not_false"; f_sigs := [
+  (* is_not_false *) {| f_sigs := [
       {| s_pos := [3]; s_var := None; s_ret := 3 |}] |};
-  {| f_name := "l2_distance"; f_sigs := [
+  (* l2_distance *) {| f_sigs := [
       {| s_pos := [26; 26]; s_var := None; s_ret := 16 |};
       {| s_pos := [26; 26]; s_var := None; s_ret := 16 |};
       {| s_pos := [26; 26]; s_var := None; s_ret := 16 |}] |};
-  {| f_name := "debug_error_on_execute"; f_sigs := [
+  (* debug_error_on_execute *) {| f_sigs := [
       {| s_pos := []; s_var := None; s_ret := 6 |}] |}
 ].
 Definition aggregate_sets : list fset := [
-  {| f_name := "sum"; f_sigs := [
+  (* sum *) {| f_sigs := [
       {| s_pos := [16]; s_var := None; s_ret := 16 |};
       {| s_pos := [4]; s_var := None; s_ret := 7 |};
       {| s_pos := [5]; s_var := None; s_ret := 7 |};
@@ -657,14 +657,14 @@ Definition aggregate_sets : list fset := [
       {| s_pos := [7]; s_var := None; s_ret := 7 |};
       {| s_pos := [17]; s_var := None; s_ret := 18 |};
       {| s_pos := [18]; s_var := None; s_ret := 18 |}] |};
-  {| f_name := "avg"; f_sigs := [
+  (* avg *) {| f_sigs := [
       {| s_pos := [17]; s_var := None; s_ret := 16 |};
       {| s_pos := [18]; s_var := None; s_ret := 16 |};
       {| s_pos := [7]; s_var := None; s_ret := 16 |};
       {| s_pos := [16]; s_var := None; s_ret := 16 |}] |};
-  {| f_name := "count"; f_sigs := [
+  (* count *) {| f_sigs := [
       {| s_pos := [0]; s_var := None; s_ret := 7 |}] |};
-  {| f_name := "min"; f_sigs := [
+  (* min *) {| f_sigs := [
       {| s_pos := [3]; s_var := None; s_ret := 3 |};
       {| s_pos := [4]; s_var := None; s_ret := 4 |};
       {| s_pos := [5]; s_var := None; s_ret := 5 |};
@@ -687,7 +687,7 @@ Definition aggregate_sets : list fset := [
       {| s_pos := [22]; s_var := None; s_ret := 22 |};
       {| s_pos := [23]; s_var := None; s_ret := 23 |};
       {| s_pos := [24]; s_var := None; s_ret := 24 |}] |};
-  {| f_name := "max"; f_sigs := [
+  (* max *) {| f_sigs := [
       {| s_pos := [3]; s_var := None; s_ret := 3 |};
       {| s_pos := [4]; s_var := None; s_ret := 4 |};
       {| s_pos := [5]; s_var := None; s_ret := 5 |};
@@ -710,7 +710,7 @@ Definition aggregate_sets : list fset := [
       {| s_pos := [22]; s_var := None; s_ret := 22 |};
       {| s_pos := [23]; s_var := None; s_ret := 23 |};
       {| s_pos := [24]; s_var := None; s_ret := 24 |}] |};
-  {| f_name := "first"; f_sigs := [
+  (* first *) {| f_sigs := [
       {| s_pos := [3]; s_var := None; s_ret := 3 |};
       {| s_pos := [4]; s_var := None; s_ret := 4 |};
       {| s_pos := [5]; s_var := None; s_ret := 5 |};
@@ -733,37 +733,37 @@ Definition aggregate_sets : list fset := [
       {| s_pos := [22]; s_var := None; s_ret := 22 |};
       {| s_pos := [23]; s_var := None; s_ret := 23 |};
       {| s_pos := [24]; s_var := None; s_ret := 24 |}] |};
-  {| f_name := "stddev_pop"; f_sigs := [
+  (* stddev_pop *) {| f_sigs := [
       {| s_pos := [16]; s_var := None; s_ret := 16 |}] |};
-  {| f_name := "stddev_samp"; f_sigs := [
+  (* stddev_samp *) {| f_sigs := [
       {| s_pos := [16]; s_var := None; s_ret := 16 |}] |};
-  {| f_name := "var_pop"; f_sigs := [
+  (* var_pop *) {| f_sigs := [
       {| s_pos := [16]; s_var := None; s_ret := 16 |}] |};
-  {| f_name := "var_samp"; f_sigs := [
+  (* var_samp *) {| f_sigs := [
       {| s_pos := [16]; s_var := None; s_ret := 16 |}] |};
-  {| f_name := "covar_pop"; f_sigs := [
+  (* covar_pop *) {| f_sigs := [
       {| s_pos := [16; 16]; s_var := None; s_ret := 16 |}] |};
-  {| f_name := "covar_samp"; f_sigs := [
+  (* covar_samp *) {| f_sigs := [
       {| s_pos := [16; 16]; s_var := None; s_ret := 16 |}] |};
-  {| f_name := "corr"; f_sigs := [
+  (* corr *) {| f_sigs := [
       {| s_pos := [16; 16]; s_var := None; s_ret := 16 |}] |};
-  {| f_name := "regr_count"; f_sigs := [
+  (* regr_count *) {| f_sigs := [
       {| s_pos := [16; 16]; s_var := None; s_ret := 7 |}] |};
-  {| f_name := "regr_avgy"; f_sigs := [
+  (* regr_avgy *) {| f_sigs := [
       {| s_pos := [16; 16]; s_var := None; s_ret := 16 |}] |};
-  {| f_name := "regr_avgx"; f_sigs := [
+  (* regr_avgx *) {| f_sigs := [
       {| s_pos := [16; 16]; s_var := None; s_ret := 16 |}] |};
-  {| f_name := "regr_r2"; f_sigs := [
+  (* regr_r2 *) {| f_sigs := [
       {| s_pos := [16; 16]; s_var := None; s_ret := 16 |}] |};
-  {| f_name := "regr_slope"; f_sigs := [
+  (* regr_slope *) {| f_sigs := [
       {| s_pos := [16; 16]; s_var := None; s_ret := 16 |}] |};
-  {| f_name := "string_agg"; f_sigs := [
+  (* string_agg *) {| f_sigs := [
       {| s_pos := [23; 23]; s_var := None; s_ret := 23 |}] |};
-  {| f_name := "bool_and"; f_sigs := [
+  (* bool_and *) {| f_sigs := [
       {| s_pos := [3]; s_var := None; s_ret := 3 |}] |};
-  {| f_name := "bool_or"; f_sigs := [
+  (* bool_or *) {| f_sigs := [
       {| s_pos := [3]; s_var := None; s_ret := 3 |}] |};
-  {| f_name := "bit_and"; f_sigs := [
+  (* bit_and *) {| f_sigs := [
       {| s_pos := [4]; s_var := None; s_ret := 4 |};
       {| s_pos := [5]; s_var := None; s_ret := 5 |};
       {| s_pos := [6]; s_var := None; s_ret := 6 |};
@@ -772,7 +772,7 @@ Definition aggregate_sets : list fset := [
       {| s_pos := [10]; s_var := None; s_ret := 10 |};
       {| s_pos := [11]; s_var := None; s_ret := 11 |};
       {| s_pos := [12]; s_var := None; s_ret := 12 |}] |};
-  {| f_name := "bit_or"; f_sigs := [
+  (* bit_or *) {| f_sigs := [
       {| s_pos := [4]; s_var := None; s_ret := 4 |};
       {| s_pos := [5]; s_var := None; s_ret := 5 |};
       {| s_pos := [6]; s_var := None; s_ret := 6 |};
@@ -781,8 +781,10 @@ Definition aggregate_sets : list fset := [
       {| s_pos := [10]; s_var := None; s_ret := 10 |};
       {| s_pos := [11]; s_var := None; s_ret := 11 |};
       {| s_pos := [12]; s_var := None; s_ret := 12 |}] |};
-  {| f_name := "approx_count_distinct"; f_sigs := [
+  (* approx_count_distinct *) {| f_sigs := [
       {| s_pos := [0]; s_var := None; s_ret := 7 |}] |};
-  {| f_name := "approx_quantile"; f_sigs := [
+  (* approx_quantile *) {| f_sigs := [
       {| s_pos := [16; 16]; s_var := None; s_ret := 16 |}] |}
 ].
+Definition scalar_names : list string := ["+"; "-"; "/"; "*"; "%"; "lcm"; "xor"; "shl"; "shr"; "and"; "or"; "="; "!="; "<"; "<="; ">"; ">="; "is_distinct_from"; "is_not_distinct_from"; "ceil"; "floor"; "trunc"; "round"; "sign"; "abs"; "acos"; "acosh"; "asin"; "asinh"; "atan"; "atan2"; "atanh"; "cbrt"; "cos"; "cosh"; "cot"; "exp"; "factorial"; "ln"; "log"; "log2"; "pi"; "power"; "sin"; "sinh"; "sqrt"; "tan"; "tanh"; "degrees"; "radians"; "isnan"; "isfinite"; "isinf"; "gcd"; "lower"; "upper"; "initcap"; "repeat"; "substring"; "starts_with"; "ends_with"; "contains"; "length"; "byte_length"; "bit_length"; "concat"; "regexp_like"; "regexp_replace"; "regexp_count"; "regexp_instr"; "ascii"; "lpad"; "rpad"; "ltrim"; "rtrim"; "btrim"; "like"; "left"; "right"; "split_part"; "strpos"; "reverse"; "replace"; "translate"; "md5"; "struct_pack"; "struct_extract"; "negate"; "not"; "random"; "list_value"; "list_extract"; "date_part"; "date_trunc"; "epoch"; "epoch_ms"; "is_null"; "is_not_null"; "is_true"; "is_not_true"; "is_false"; "is_not_false"; "l2_distance"; "debug_error_on_execute"].
+Definition aggregate_names : list string := ["sum"; "avg"; "count"; "min"; "max"; "first"; "stddev_pop"; "stddev_samp"; "var_pop"; "var_samp"; "covar_pop"; "covar_samp"; "corr"; "regr_count"; "regr_avgy"; "regr_avgx"; "regr_r2"; "regr_slope"; "string_agg"; "bool_and"; "bool_or"; "bit_and"; "bit_or"; "approx_count_distinct"; "approx_quantile"].
